@@ -700,7 +700,7 @@ func init() {
 	fw.Register(&fw.Property{
 		ID:          "C14",
 		Level:       "fault_enumeration",
-		Rule:        "transactions staging 1..4 branches (every new/existing mix up to 3, sampled at 4): branch names incl. team/x beside x, staged data possibly equal to the head's; modes reapply (later commits on every branch, then Reapply), fail-discard (Discard of a half-applied commit must refuse), fail-advance (unrelated commits land on already-moved branches before the re-run: the staged table must be in every history exactly once) and foreign-reader (SQLite file, a second connection holds a read cursor during the j-th branch move); an unfaulted run is traced through counting wrappers around the object store and the SQL ref store, then EVERY store operation position (reads and writes) is visited twice - failing just that call, and failing it and everything after it (process death) - each 4 times because the staged refs come from a map; after each faulted run: heads, reflogs (incl. entries carrying the txid), status and staged refs are observed; either no branch moved and the status is in-progress, or a re-run must complete to exactly one new commit per branch with the staged table, the pre-transaction head as only parent, one txid reflog entry and status committed; the same enumeration for Discard; plus the sequences commit.commit, commit.discard, discard.commit, discard.discard; distinct_nontrivial = distinct (mode, branch mix) scenarios",
+		Rule:        "transactions staging 1..4 branches (every new/existing mix up to 3, sampled at 4): branch names incl. team/x beside x, staged data possibly equal to the head's; modes reapply (later commits on every branch, then Reapply), fail-discard (Discard of a half-applied commit must refuse), fail-advance (unrelated commits land on already-moved branches before the re-run: the staged table must be in every history exactly once) foreign-reader (SQLite file, a second connection holds a read cursor during the j-th branch move) and foreign-writer (shared-cache store, a second connection is inside a write transaction during the j-th read of the ref store, every j); an unfaulted run is traced through counting wrappers around the object store and the SQL ref store, then EVERY store operation position (reads and writes) is visited twice - failing just that call, and failing it and everything after it (process death) - each 4 times because the staged refs come from a map; after each faulted run: heads, reflogs (incl. entries carrying the txid), status and staged refs are observed; either no branch moved and the status is in-progress, or a re-run must complete to exactly one new commit per branch with the staged table, the pre-transaction head as only parent, one txid reflog entry and status committed; the same enumeration for Discard; plus the sequences commit.commit, commit.discard, discard.commit, discard.discard; distinct_nontrivial = distinct (mode, branch mix) scenarios",
 		Assumptions: []string{"concurrent committers of one transaction are not modelled", "whether a refused Discard of a committed transaction removes staged refs is not judged"},
 		Gen: func(tier string, seed int64) []fw.Case {
 			l := fw.NewCaseList("C14", tier, seed)
